@@ -63,16 +63,16 @@ type c20bPol struct {
 }
 
 type c20bChan struct {
-	scid    lnwire.ShortChannelID
-	n       [2]int
-	btc     [2]route.Vertex
-	cap     btcutil.Amount
-	point   wire.OutPoint
-	sigs    [4]lnwire.Sig
-	known   bool
-	zombie  bool
-	pol     [2]*c20bPol
-	nAdded  int
+	scid   lnwire.ShortChannelID
+	n      [2]int
+	btc    [2]route.Vertex
+	cap    btcutil.Amount
+	point  wire.OutPoint
+	sigs   [4]lnwire.Sig
+	known  bool
+	zombie bool
+	pol    [2]*c20bPol
+	nAdded int
 }
 
 type c20bNode struct {
